@@ -1,4 +1,6 @@
-(* C09: statements.  Each theorem is only an [exact] of a lemma proved in the other files. *)
+(* C09: statements.  Each theorem is only an [exact] of a lemma proved in the other files.
+   The assumptions of C09_body_<Planet> (= those of C09_planets.planet_full_<Planet>, of which it is an
+   [exact]) are printed by C09_pa_<Planet>.v in parallel (9 s each). *)
 From Coq Require Import Reals ZArith List Lra.
 From PyLib Require Import PyVal PyBuiltins Ideal Sphere.
 From Spec Require Import AngleSpec.
@@ -303,13 +305,6 @@ Redirect "C09_corrections_small.assumptions" Print Assumptions C09_corrections_s
 Redirect "C09_minor_set.assumptions" Print Assumptions C09_minor_set.
 Redirect "C09_minor_set_parabolic.assumptions" Print Assumptions C09_minor_set_parabolic.
 Redirect "C09_minor_gauss.assumptions" Print Assumptions C09_minor_gauss.
-Redirect "C09_body_Mercury.assumptions" Print Assumptions C09_body_Mercury.
-Redirect "C09_body_Venus.assumptions" Print Assumptions C09_body_Venus.
-Redirect "C09_body_Mars.assumptions" Print Assumptions C09_body_Mars.
-Redirect "C09_body_Jupiter.assumptions" Print Assumptions C09_body_Jupiter.
-Redirect "C09_body_Saturn.assumptions" Print Assumptions C09_body_Saturn.
-Redirect "C09_body_Uranus.assumptions" Print Assumptions C09_body_Uranus.
-Redirect "C09_body_Neptune.assumptions" Print Assumptions C09_body_Neptune.
 Redirect "C09_body_direction.assumptions" Print Assumptions C09_body_direction.
 Redirect "C09_body_corrections.assumptions" Print Assumptions C09_body_corrections.
 Redirect "C09_body_elongation.assumptions" Print Assumptions C09_body_elongation.
